@@ -1,31 +1,13 @@
-"""Per-property configuration of ./check.  `hashes` are the normalised-source hashes of the
-modelled Go functions on the pinned tree: a change is not an obligation, it only moves the
-property's suites to a larger budget for that run (more search where the code changed)."""
-
-LEAN_TB = ["Lean 4.33.0 kernel (lake build; leanchecker in the thorough tier)",
-           "axioms allowed per theorem: propext, Classical.choice, Quot.sound (audited by #print axioms on every run)",
-           "/verif/extract (go/ast fact extractor) and /verif/harness (correspondence, canonicalisers)",
-           "Lean compiler/runtime for executing the models in the driver (correspondence and oracles only)"]
-
-CHECKS = {
-    "C03": {
-        "title": "Version comparison is the apk total order and constraints follow it",
-        "modules": ["Apko.Proofs.C03"],
-        "suites": [("version", 3000, 60000)],
-        "fact_prefixes": ["version.go"],
-        "hashes": {
-            "pkg/apk/apk/version.go:ParseVersion": "a86d03975ad07cfd",
-            "pkg/apk/apk/version.go:ResolvePackageNameVersionPin": "13f0e5b96b34a85b",
-        },
-        "level": "proof",
-        "design_ref": "DESIGN.md §4 C03",
-        "technique": "Lean 4 theorems (order laws, key = apk scheme, operators, tilde) over tables regenerated from version.go + differential correspondence Go vs Lean Impl/Spec",
-        "trusted_base": LEAN_TB + ["Go regexp (hand-written recogniser tied to the regex literals)", "strconv.Atoi modelled as digitsToNat + 2^63 guard"],
-        "rule": "cases = a base version drawn from the grammar plus 2-4 single-field relatives (one field changed, respelled with leading zeros, byte-mutated 7%), every ordered pair compared, 6 random constraints and a tilde family per case; a step is non-trivial when both sides parse; distinct = distinct protocol lines",
-        "assumptions": ["Go's regexp implements RE2 semantics for the two tied literals", "byte-level (Latin-1) view of strings is exact because both regexes only test ASCII bytes"],
-        "text": "Machine-checked: CompareVersions = lexicographic order of the apk key (hence a linear order on parsed versions), rank chains over the regenerated tables, every operator and ~ equal to their order-theoretic spec, Impl parser sound w.r.t. the grammar recogniser (complete below 2^63; F03a recorded). The model is tied to version.go by regenerated tables/literals/statement lists and by differential correspondence on generated strings.",
-    },
-}
+"""Collects the per-property configurations checks/props_CXX.py (one file per property, each
+defining CHECK).  `hashes` are normalised-source hashes of modelled Go functions on the pinned tree:
+a change is not an obligation, it only moves the property's suites to a larger budget for that run."""
+import glob, importlib, os, sys
+_here = os.path.dirname(os.path.abspath(__file__))
+sys.path.insert(0, _here)
+CHECKS = {}
+for _f in sorted(glob.glob(os.path.join(_here, "props_C*.py"))):
+    _m = importlib.import_module(os.path.basename(_f)[:-3])
+    CHECKS[os.path.basename(_f)[6:-3]] = _m.CHECK
 
 # properties not (yet) claimed; kept current as checks are added
 _PENDING = "check not built yet in this round (see DESIGN.md build order); not claimed"
